@@ -58,6 +58,7 @@ def required(tier):
         "with_explicit_empty": 30,
         "with_subdirectories": 30,
         "with_keyword": 20,
+        "with_action_names": 30,
     }
     for s in SHAPES:
         d["shape." + s] = 10
@@ -158,7 +159,22 @@ def gen_modular(rng):
             if f != "root":
                 dirs[f] = rng.choice(["", "sub", "sub", "sub/deep", "other"])
         feats.add("subdirs")
-    return {"shape": shape, "graph": graph, "files": files, "alias": alias, "locals": locals_, "rules": rules, "override": override, "fqn": fqn, "feats": feats, "dirs": dirs}
+    tagged = set()
+    if rng.random() < 0.25:
+        # rules carrying an action name (@tag) in the grammar; the parsers get actions={"tag": ...}
+        for k in sorted(rules):
+            if (override is None or k != override[0]) and rng.random() < 0.5:
+                tagged.add(k)
+        if tagged:
+            feats.add("actions")
+    return {"shape": shape, "graph": graph, "files": files, "alias": alias, "locals": locals_, "rules": rules, "override": override, "fqn": fqn, "feats": feats, "dirs": dirs, "tagged": tagged}
+
+
+def tag(_, nodes):
+    return ("T", nodes)
+
+
+TAG_ACTIONS = {"tag": tag}
 
 
 def expected_fqns(graph, alias, locals_):
@@ -247,6 +263,8 @@ def file_texts(m):
             lines.append("import '%s'%s;" % (rel, (" as " + a) if a != t else ""))
         order = m["locals"][f]
         for l in order:
+            if (f, l) in m["tagged"]:
+                lines.append("@tag")
             lines.append("%s: %s;" % (l, " | ".join(alt_text(a) for a in m["rules"][(f, l)])))
         if f == "root" and m["override"]:
             tgt, alts = m["override"]
@@ -288,6 +306,8 @@ def flatten(m):
         for alt in rules[k]:
             alts.append(" ".join(('"%s"' % x[1]) if x[0] == "t" else (flat_name(*x[1]) + x[3]) for x in alt) if alt else "EMPTY")
             prods.append((flat_name(*k), tuple(x[1] if x[0] == "t" else flat_name(*x[1]) for x in alt)))
+        if k in m["tagged"]:
+            lines.append("@tag")
         lines.append("%s: %s;" % (flat_name(*k), " | ".join(alts)))
     g = None if (has_rep or "keyword" in m["feats"]) else cfg.G(prods, flat_name("root", "S"))
     if "keyword" in m["feats"]:
@@ -306,7 +326,8 @@ def run(ctx):
         mon.uninstall()
 
 
-def load_modular(texts, dirs=None):
+def load_modular(texts, dirs=None, actions=None):
+    kw = {"actions": actions} if actions else {}
     d = tempfile.mkdtemp(prefix="pgv-c20-")
     dirs = dirs or {}
     try:
@@ -317,7 +338,7 @@ def load_modular(texts, dirs=None):
                 fh.write(t)
         with pgx.quiet():
             pg = parglare.Grammar.from_file(os.path.join(d, "root.pg"))
-            glr = parglare.GLRParser(pg)
+            glr = parglare.GLRParser(pg, **kw)
             lr = None
             # the table cache ignores the parser kind (KF-C12-1, judged by C12): never let it interfere here
             for dp, _, fns in os.walk(d):
@@ -325,7 +346,7 @@ def load_modular(texts, dirs=None):
                     if fn.endswith(".pgc"):
                         os.remove(os.path.join(dp, fn))
             try:
-                lr = parglare.Parser(parglare.Grammar.from_file(os.path.join(d, "root.pg")))
+                lr = parglare.Parser(parglare.Grammar.from_file(os.path.join(d, "root.pg")), **kw)
             except (parglare.exceptions.SRConflicts, parglare.exceptions.RRConflicts):
                 pass
         return pg, glr, lr
@@ -339,15 +360,16 @@ def one(ctx):
     kf = "KF-C20-1" if noncanonical_user(m) else None
     texts = file_texts(m)
     g, flat_text, reach, nprods = flatten(m)
-    case0 = {"files": texts, "flat": flat_text, "shape": m["shape"], "dirs": m["dirs"]}
+    case0 = {"files": texts, "flat": flat_text, "shape": m["shape"], "dirs": m["dirs"], "actions": "actions" in m["feats"]}
     try:
         with pgx.watchdog(60):
-            pg, glr, lr = load_modular(texts, m["dirs"])
+            akw = {"actions": TAG_ACTIONS} if "actions" in m["feats"] else {}
+            pg, glr, lr = load_modular(texts, m["dirs"], akw.get("actions"))
             fpg = pgx.grammar(flat_text)
-            fglr = pgx.glr(fpg)
+            fglr = pgx.glr(fpg, **akw)
             flr = None
             try:
-                flr = pgx.lr(pgx.grammar(flat_text))
+                flr = pgx.lr(pgx.grammar(flat_text), **akw)
             except (parglare.exceptions.SRConflicts, parglare.exceptions.RRConflicts):
                 pass
     except pgx.CaseTimeout:
@@ -360,7 +382,7 @@ def one(ctx):
     ctx.count("grammars")
     ctx.count("shape." + m["shape"])
     for ft in m["feats"]:
-        ctx.count({"alias": "with_alias", "override": "with_override", "nested": "with_nested_reference", "rep": "with_repetition", "empty": "with_explicit_empty", "subdirs": "with_subdirectories", "keyword": "with_keyword"}[ft])
+        ctx.count({"alias": "with_alias", "override": "with_override", "nested": "with_nested_reference", "rep": "with_repetition", "empty": "with_explicit_empty", "subdirs": "with_subdirectories", "keyword": "with_keyword", "actions": "with_action_names"}[ft])
     if (lr is None) != (flr is None):
         ctx.case((str(texts), "lr-build"), True)
         kf2 = kf
@@ -431,8 +453,9 @@ def replay(case, ctx):
     mon = LRMonitor()
     mon.install()
     try:
-        pg, glr, lr = load_modular(case["files"], case.get("dirs"))
-        fglr = pgx.glr(pgx.grammar(case["flat"]))
+        akw = {"actions": TAG_ACTIONS} if case.get("actions") else {}
+        pg, glr, lr = load_modular(case["files"], case.get("dirs"), akw.get("actions"))
+        fglr = pgx.glr(pgx.grammar(case["flat"]), **akw)
         if "input" in case:
             a = glrobs.parse_glr(glr, case["input"])
             b = glrobs.parse_glr(fglr, case["input"])
